@@ -290,6 +290,89 @@ def _eval_threads(case, v: Verdict) -> None:
     v.labels.append(f"threads-{nthreads}")
 
 
+class HookLock:
+    """A lock that runs an injected operation right after its k-th release:
+    the pre-emption point between two critical sections of one cache method."""
+
+    def __init__(self) -> None:
+        self._lock = threading.Lock()
+        self.releases = 0
+        self.at = -1
+        self.hook = None
+
+    def acquire(self, *a, **kw):
+        return self._lock.acquire(*a, **kw)
+
+    def release(self) -> None:
+        self._lock.release()
+        if self.hook is not None:
+            self.releases += 1
+            if self.releases == self.at:
+                hook, self.hook = self.hook, None
+                hook()
+
+    def __enter__(self):
+        self.acquire()
+        return self
+
+    def __exit__(self, *exc) -> None:
+        self.release()
+
+
+def _eval_lockhook(case, v: Verdict) -> None:
+    """Another thread's operation is run at the k-th lock release inside one
+    listing call of the thread-safe cache; the listing must equal the cache's
+    contents either before or after that operation (a single atomic snapshot)."""
+    cls = _classes()["ts"]
+    cap = case["cap"]
+    cache = cls(cap)
+    if not hasattr(cache, "_lock"):
+        v.labels.append("lockhook:no-_lock-attribute")
+        return
+    model = ModelLRU(cap)
+    for step, (op, key) in enumerate(case["pre"]):
+        _apply_real(cache, op, key, step)
+        _apply_model(model, op, key, step)
+    kind = case["call"]
+
+    def listing():
+        if kind in ("keys", "iter"):
+            return model.keys()
+        return model.values() if kind == "values" else model.pairs()
+
+    before = listing()
+    lock = HookLock()
+    cache._lock = lock
+    iop, ikey = case["inject"]
+
+    def injected() -> None:
+        _apply_real(cache, iop, ikey, 99)
+
+    lock.hook = injected
+    lock.at = case["k"]
+    try:
+        it = iter(cache) if kind == "iter" else getattr(cache, kind)()
+        got = [tuple(x) if kind == "items" else x for x in it]
+    except Exception as err:  # noqa: BLE001
+        v.fail(f"lockhook:{type(err).__name__}", f"{kind}() with {case['inject']} run at lock release {case['k']}: {err!r}")
+        return
+    fired = lock.hook is None
+    lock.hook = None
+    _apply_model(model, iop, ikey, 99)
+    after = listing()
+    if fired and got not in (before, after):
+        v.fail(
+            f"lockhook:torn-listing:{kind}",
+            f"pre={case['pre']} {kind}() with {case['inject']} injected at lock release {case['k']}: got {got}, "
+            f"contents before {before}, after {after}",
+        )
+    elif not fired and got != before:
+        v.fail(f"lockhook:listing:{kind}", f"{kind}() -> {got}, expected {before}")
+    v.nontrivial = fired and before != after
+    if fired:
+        v.labels.append("lockhook:injected")
+
+
 def evaluate(case) -> Verdict:
     v = Verdict()
     kind = case.get("kind", "seq")
@@ -299,6 +382,8 @@ def evaluate(case) -> Verdict:
         _eval_sched(case, v)
     elif kind == "threads":
         _eval_threads(case, v)
+    elif kind == "lockhook":
+        _eval_lockhook(case, v)
     else:
         raise core.HarnessError(f"unknown case kind {kind}")
     return v
@@ -408,9 +493,26 @@ def _sched_exhaustive(ctx: core.Ctx, shard: int, nshards: int, maxmid: int) -> N
                         ctx.run(case)
 
 
+def _lockhook_exhaustive(ctx: core.Ctx, shard: int, nshards: int) -> None:
+    keys = ["a", "b", "c", "d"]
+    pres = [[], [["set", "a"]], [["set", "a"], ["set", "b"]], [["set", "a"], ["set", "b"], ["set", "c"]],
+            [["set", "a"], ["set", "b"], ["get", "a"]]]
+    injects = [["set", k] for k in keys] + [["del", k] for k in keys[:3]] + [["get", k] for k in keys[:3]]
+    i = 0
+    for cap in (1, 2, 3):
+        for pre in pres:
+            for call in LISTINGS:
+                for inj in injects:
+                    for k in (1, 2, 3):
+                        i += 1
+                        if i % nshards == shard:
+                            ctx.run({"kind": "lockhook", "cap": cap, "pre": pre, "call": call, "inject": inj, "k": k})
+
+
 def campaign(ctx: core.Ctx, tier: str, shard: int, nshards: int) -> None:
     quick = tier == "quick"
     _exhaustive(ctx, 4 if quick else 5, shard, nshards)
+    _lockhook_exhaustive(ctx, shard, nshards)
     _sched_exhaustive(ctx, shard, nshards, 2 if quick else 3)
     seed = core.sub_seed(ctx.seed, shard)
     core.drive(_long_seq(), ctx.run, n=(400 if quick else 6000), seed=seed)
@@ -441,7 +543,10 @@ def finish_kwargs(ctx: core.Ctx, tier: str) -> dict:
             "step with a list model; non-trivial = an eviction whose victim differs from the oldest-inserted "
             "key (recency was changed by a lookup or re-insert). (b) random histories of 5-60 ops over 8 keys. "
             "(c) owned schedules on ThreadSafeLRUCache: a listing is begun, other ops run, the listing is "
-            "drained; non-trivial = the cache changed between begin and end. (d) 2-16 real threads with "
+            "drained; non-trivial = the cache changed between begin and end; and lock-release schedules: another "
+            "thread's set/del/get is run at the 1st/2nd/3rd release of the cache's lock inside one listing call, and "
+            "the listing must equal the contents before or after it (exhaustive over 5 pre-states x 4 listings x 10 "
+            "injected ops x capacities 1-3). (d) 2-16 real threads with "
             "switch interval 1e-6; any exception, over-capacity or invented pair fails."
         ),
         "exhaustive": True,
